@@ -362,6 +362,15 @@ def rule_mirror(fx, rep):
             rep.sample({"rule": "C16-MIRROR", "colour_arms": nb, "line": line, "white": show(ew)[:60], "black": show(ek)[:60], "mirror": "count" if as_count else ("position" if as_position else None)})
             if not good:
                 bad(f"colour-arms/{nb.split('::')[-1]}", f"`{b2.name}` line {line} selects `{show(ew)[:60]}` for White and `{show(ek)[:60]}` for Black; for rank r vs 7-r these give {vals[:4]}.., neither equal (a count) nor reflected (a position): the two colours are not treated as mirror images", b2)
+    # per-colour bit helpers (forward / backward / rank masks / pawn attack sets): reflection and colour swap commute
+    for (b3, good, detail) in colour_equivariance(fx):
+        n += 1
+        rep.obligation(good)
+        rep.sample({"rule": "C16-MIRROR", "equivariant_helper": norm(b3.name), "ok": good})
+        if not good:
+            x, w, k = detail
+            bad(f"equivariant/{norm(b3.name).split('::')[-1]}", f"`{b3.name}` does not treat the colours as mirror images: for the board {x:#018x} White gives {w:#018x}, whose reflection is {flip_v(w):#018x}, "
+                f"but Black on the reflected board gives {k:#018x}", b3)
     # from_white_eval: White as is, Black negated
     fw = fx.one("Eval::from_white_eval")
     n += 1
@@ -377,6 +386,134 @@ def rule_mirror(fx, rep):
     if not good:
         bad("from_white_eval", f"from_white_eval negates for {res}; expected only for Black", fw)
     rep.rule("C16-MIRROR", n, 15, ok, "mirrored table construction and per-colour term combination")
+
+
+M64 = (1 << 64) - 1
+
+
+def flip_v(x):
+    """vertical reflection of a 64-bit board (rank r <-> 7 - r)"""
+    return int.from_bytes((x & M64).to_bytes(8, "little"), "big")
+
+
+def bits_eval(fx, e, env, depth=5):
+    """Numeric value of a closed-form (loop-free) expression over 64-bit boards and the Player enum, with calls to small
+    in-crate functions evaluated through their own extracted return expressions. env: {param index: int}. None when the
+    expression is outside this fragment."""
+    if not isinstance(e, tuple) or not e:
+        return None
+    k = e[0]
+    if k in ("ref", "deref"):
+        return bits_eval(fx, e[1], env, depth)
+    if k == "arg":
+        return env.get(e[1])
+    if k == "const":
+        return (e[1] & M64) if isinstance(e[1], int) and not isinstance(e[1], bool) else (int(e[1]) if isinstance(e[1], bool) else None)
+    if k == "constpath":
+        cv = [v for kk, v in fx.consts.items() if norm(kk) == e[1]]
+        if cv and "bits" in cv[0]:
+            return cv[0]["bits"] & M64
+        if cv and "int" in cv[0]:
+            return cv[0]["int"] & M64
+        return None
+    if k == "agg":
+        tag = str(e[1])
+        if not e[2] and "::Player::" in tag:
+            return {v["name"]: v["discr"] for v in fx.adt("player::Player")["variants"]}.get(tag.split("::")[-1])
+        if len(e[2]) == 1 and tag.endswith("Bitboard::Bitboard"):
+            return bits_eval(fx, e[2][0], env, depth)
+        return None
+    if k == "field":
+        if e[2] == "0":
+            return bits_eval(fx, e[1], env, depth)
+        return None
+    if k == "cast":
+        return bits_eval(fx, e[1], env, depth)
+    if k == "discr":
+        return bits_eval(fx, e[1], env, depth)
+    if k == "unop":
+        a = bits_eval(fx, e[2], env, depth)
+        if a is None:
+            return None
+        return (~a) & M64 if e[1] == "Not" else None
+    if k == "binop":
+        a, b = bits_eval(fx, e[2], env, depth), bits_eval(fx, e[3], env, depth)
+        if a is None or b is None:
+            return None
+        op = e[1].replace("WithOverflow", "")
+        if op == "Shl":
+            return (a << b) & M64 if b < 64 else None
+        if op == "Shr":
+            return (a >> b) if b < 64 else None
+        return {"BitAnd": a & b, "BitOr": a | b, "BitXor": a ^ b, "Add": (a + b) & M64, "Sub": (a - b) & M64, "Mul": (a * b) & M64,
+                "Eq": int(a == b), "Ne": int(a != b)}.get(op)
+    if k == "call" and isinstance(e[1], str) and depth > 0:
+        cb = fx.body(e[1])
+        if cb is None or cb.kind not in ("Fn", "AssocFn") or cb.n > 40:
+            return None
+        args = [bits_eval(fx, a, env, depth) for a in e[2]]
+        if any(a is None for a in args):
+            return None
+        cenv = {i + 1: a for i, a in enumerate(args)}
+        for conds, ret, last in decision_paths(cb, 64):
+            if ret is None:
+                continue
+            feasible = True
+            for (ce, val) in conds:
+                v = bits_eval(fx, ce, cenv, depth - 1)
+                if v is None:
+                    feasible = None
+                    break
+                if isinstance(val, int):
+                    if v != val:
+                        feasible = False
+                        break
+                elif isinstance(val, tuple) and val[0] == "otherwise":
+                    if v in val[1]:
+                        feasible = False
+                        break
+            if feasible is None:
+                return None
+            if feasible:
+                return bits_eval(fx, ret, cenv, depth - 1)
+        return None
+    return None
+
+
+BOARD_SAMPLES = [1 << i for i in range(64)] + [0x00FF00000000FF00, 0x8142241818244281, 0x0102040810204080, 0xFFFFFFFFFFFFFFFF, 0x00000000000000FF, 0x8100000000000081]
+
+
+def colour_equivariance(fx):
+    """[(body, ok, detail)] for every loop-free helper of chess::bitboard that takes a Player and returns a Bitboard:
+    reflecting the board and swapping the colour must commute with it, f(flip(x), Black) == flip(f(x, White))."""
+    out = []
+    pv = {v["name"]: v["discr"] for v in fx.adt("player::Player")["variants"]}
+    for b in fx.fn_bodies():
+        nb = norm(b.name)
+        if not nb.startswith("chess::bitboard::") or "::tests::" in nb or b.kind not in ("Fn", "AssocFn") or b.name.startswith("<"):
+            continue
+        tys = [b.local_ty(i) for i in range(1, b.arg_count + 1)]
+        if b.local_ty(0) != "chess::bitboard::Bitboard" or "chess::player::Player" not in tys or any(t not in ("chess::bitboard::Bitboard", "chess::player::Player") for t in tys):
+            continue
+        pidx = tys.index("chess::player::Player") + 1
+        bidx = [i + 1 for i, t in enumerate(tys) if t == "chess::bitboard::Bitboard"]
+        if len(bidx) > 1:
+            continue
+        call = lambda x, pl: bits_eval(fx, ("call", b.name, tuple(("const", x) if (i + 1) in bidx else ("agg", "chess::player::Player::" + pl, ()) for i in range(b.arg_count))), {})
+        bad = None
+        undecided = False
+        for x in (BOARD_SAMPLES if bidx else [0]):
+            w, k = call(x, "White"), call(flip_v(x), "Black")
+            if w is None or k is None:
+                undecided = True
+                break
+            if flip_v(w) != k:
+                bad = (x, w, k)
+                break
+        if undecided:
+            continue
+        out.append((b, bad is None, bad))
+    return out
 
 
 def colour_arm_pairs(fx, b):
@@ -597,6 +734,8 @@ PH = "src/engine/eval/phased_eval.rs"
 PS = "src/engine/eval/piece_square_tables.rs"
 PA = "src/engine/eval/params.rs"
 MUTANTS = [
+    {"name": "Bitboard::backward shifts Black's squares the wrong way", "expect": "C16-MIRROR/equivariant",
+     "edits": [("src/chess/bitboard.rs", "    pub fn backward(self, player: Player) -> Self {\n        match player {\n            Player::White => self.south(),\n            Player::Black => self.north(),", "    pub fn backward(self, player: Player) -> Self {\n        match player {\n            Player::White => self.south(),\n            Player::Black => self.south(),")]},
     {"name": "passed-pawn mask keeps the pawn's own rank for Black (seed C16-2)", "expect": "C16-MIRROR/colour-arms",
      "edits": [("src/engine/eval/pawn_structure.rs", "    let rank = square.rank();\n    let mut relevant_ranks = Bitboard::FULL;\n\n    let back_rank_idx = match player {\n        Player::White => Rank::R1,\n        Player::Black => Rank::R8,\n    };\n\n    let distance_from_back_rank = back_rank_idx.array_idx().abs_diff(rank.array_idx());\n\n    for _ in 0..=distance_from_back_rank {",
                 "    let rank_idx = square.rank().array_idx();\n    let ranks_to_drop = match player {\n        Player::White => rank_idx + 1,\n        Player::Black => Rank::R8.array_idx() - rank_idx,\n    };\n\n    let mut relevant_ranks = Bitboard::FULL;\n    for _ in 0..ranks_to_drop {")]},
